@@ -94,7 +94,10 @@ CHECKS = {
          "pending flags, skip counter, trailing-whitespace trimming): C13_content -- for EVERY document, both forms and ANY two "
          "widths the renderings are equal once whitespace is removed (simulation with invariant 'same non-blank content, same "
          "skip counter'); the short form shows exactly the chunks before the first paragraph break of each text and skips the "
-         "rest. The width clause, for every width and every document with texts shorter than 10^6 characters: "
+         "rest; C13_short_help_text / C13_short_help_text_closes -- a help text embedded as an inline block of text tokens "
+         "shows the texts before the first break and the first paragraph of the text holding it, and the end of the block "
+         "switches skipping off again; C13_short_nested_refuted -- NOT so when the help text embeds a further document that "
+         "holds the break (witness replayed on the library: known finding C13-para-break-inside-embedded-doc). The width clause, for every width and every document with texts shorter than 10^6 characters: "
          "C13_column_dominates_line -- at every prefix of the rendering the column counter the wrapping decision uses is at "
          "least the length of the line being written; C13_width_word_partial -- from every state the renderer can reach "
          "(C13_render_states_reachable, C13_splitter_chunks), placing a word or a separating space leaves a line of at most "
@@ -155,7 +158,9 @@ CHECKS = {
          "group_help keeps the entries; every name shown for a flag/argument is accepted by its parser; the document is "
          "description, usage block, header, item lists, footer in that order (closed-prefix invariant over every Doc writer). "
          "Model/Help.v (Doc builder, normalize, write_meta, append_meta, Dedup, section grouping, render_help) is compared "
-         "TOKEN FOR TOKEN with the library's Doc for --help at every command level on every run. Not a theorem: one "
+         "TOKEN FOR TOKEN with the library's Doc for --help at every command level on every run. "
+         "C12_help_document_total_balanced: for every parser definition whose own documents are balanced the help document "
+         "exists (the group loop terminates) and its blocks are balanced. Not a theorem: one "
          "definition-list entry per non-duplicate item inside the writer, and the usage-line content (oracle / differential only).",
          "4/C12", "Rocq proof (item list = visible leaves; block order) + token-exact differential of the help Doc + AST oracle"),
  "C16": ("proof", "PARTIAL. Theorems in coq/Props/C16.v. Manpage, for EVERY document/help text/name/metavariable: no output line begins "
@@ -163,8 +168,14 @@ CHECKS = {
          "over escape/Roff builder/render_roff, output bytes carry their origin); user text round-trips through a reader of roff "
          "text that rejects every escape bpaf does not write (Special, SpecialNoNewline, Spaces -- the last one only after the "
          "fix: commit 599aa89). HTML: the tags a reader sees in the bytes are exactly the renderer's own (user text never opens, "
-         "closes or breaks a tag); for documents with balanced blocks the tags are well nested (balancedness of bpaf's documents "
-         "is checked on every document, not proved). Completeness: section items = visible leaves (C12 theorem). Model/Docs.v "
+         "closes or breaks a tag); for documents with balanced blocks the tags are well nested, and the documents bpaf builds ARE "
+         "balanced: C16_html_document_total_balanced / C16_manpage_document_total_balanced -- for EVERY parser definition whose "
+         "own documents (help texts, group titles, custom usage, description, header, footer) are balanced, which is all the Doc "
+         "API can build, section extraction never runs out of fuel, the group loop of write_help_item_groups terminates, the "
+         "HTML and manpage documents exist and their blocks are balanced (Lemmas/BalLaws.v: every writer of Model/Help.v and "
+         "Model/Docs.v extends a document by a block-neutral piece; normalize keeps the documents of the metadata; append_meta "
+         "builds well-bracketed group lists), hence C16_html_well_nested for every parser. Completeness: section items = "
+         "visible leaves (C12 theorem). Model/Docs.v "
          "(extract_sections, collect_html, render_manpage document, render_html, Roff/escape/render_roff) is compared with the "
          "library on every run: documents token for token (cfg(bpaf_verif) capture hook), html and manpage byte for byte, plus "
          "explicit balanced/unbalanced token lists through the renderer hooks. render_markdown is not modelled (oracle only).",
